@@ -149,6 +149,24 @@ struct SlistFamily : Family {
     }
   }
 
+  void pre_witness(Instance *ip, const Op &op, Ctx &ctx) override
+  {
+    SInst *in = (SInst *)ip;
+    size_t n  = in->model.size();
+    if (op.c == INSERT) {
+      if (op.b > 1 && n > 0) ctx.witness("multi_level");
+      for (auto &it : in->model)
+        if (it.first == (int)op.a) {
+          ctx.witness("duplicate_keys");
+          break;
+        }
+    } else if (op.c == DESTROY_AT || op.c == CLAIM_AT) {
+      if ((size_t)op.a == n - 1 && n >= 2) ctx.witness("removed_tail");
+      if (op.a == 0 && n >= 2) ctx.witness("removed_head");
+      if (op.a > 0 && (size_t)op.a < n - 1) ctx.witness("removed_middle");
+    }
+  }
+
   ares_slist_node_t *node_at(SInst *in, size_t pos)
   {
     ares_slist_node_t *n = ares_slist_node_first(in->list);
@@ -275,13 +293,7 @@ struct SlistFamily : Family {
         if (ctx.checking) {
           ctx.outcome("level" + std::to_string(op.b));
           if (ares_slist_node_val(nd) != d) ctx.fail("retval-mismatch", "returned node does not hold the inserted value");
-          if (op.b > 1 && n > 0) ctx.witness("multi_level");
           if (exd_slist_levels(in->list) > lv0) ctx.witness("list_levels_grew");
-          for (auto &it : in->model)
-            if (it.first == d->key && it.second != d->id) {
-              ctx.witness("duplicate_keys");
-              break;
-            }
         }
         break;
       }
@@ -306,9 +318,6 @@ struct SlistFamily : Family {
         delete d;
         if (ctx.checking) {
           ctx.outcome(n == 1 ? "emptied" : (size_t)op.a == n - 1 ? "tail" : op.a == 0 ? "head" : "middle");
-          if ((size_t)op.a == n - 1 && n >= 2) ctx.witness("removed_tail");
-          if (op.a == 0 && n >= 2) ctx.witness("removed_head");
-          if (op.a > 0 && (size_t)op.a < n - 1) ctx.witness("removed_middle");
         }
         break;
       }
